@@ -152,6 +152,7 @@ fn run_sim<S: Sim>(mut env: S, h: &EnvHistory, fails: &mut Vec<Failure>) {
     let mut plain: Vec<OrderBook<L>> = (0..n).map(|a| OrderBook::new(h.t0, h.ticks[a % h.ticks.len()], h.trading)).collect();
     let mut queue: Vec<Instr> = vec![];
     let mut k_steps = 0usize;
+    let mut ever_overfull = false; // a step carried more instructions than the step size has time units (the domain of the recorded C05 finding)
     let mut live_rows: Vec<Vec<Vec<u32>>> = vec![vec![]; n];
     let mut fail = |step: usize, clause: &str, detail: String, fails: &mut Vec<Failure>| fails.push(Failure { step, op: None, clause: clause.into(), detail });
     for (k, op) in h.ops.iter().enumerate() {
@@ -198,6 +199,7 @@ fn run_sim<S: Sim>(mut env: S, h: &EnvHistory, fails: &mut Vec<Failure>) {
                 }
                 // the schedule: shuffle of a vector of the same length with the same generator state
                 let mut sched: Vec<Instr> = queue.clone();
+                if sched.len() as u64 > h.step_size { ever_overfull = true; }
                 sched.shuffle(&mut rng2);
                 queue.clear();
                 let ntr: Vec<usize> = plain.iter().map(|b| b.get_trades().len()).collect();
@@ -228,6 +230,18 @@ fn run_sim<S: Sim>(mut env: S, h: &EnvHistory, fails: &mut Vec<Failure>) {
                     let now = env.book(a).get_time();
                     if env.book(a).get_trades().iter().any(|t| t.t > now) || env.book(a).get_orders().iter().any(|o| o.status != Status::New && o.arr_time > now) {
                         fail(k, "C05.step_overrun", format!("asset {}: a trade or an arrival is stamped later than the clock ({}) shows after the step", a, now), fails);
+                    }
+                    // C05 inside the clock discipline: the environment stamps every instruction of every step with its own time, so it never ITSELF creates two resting orders of one
+                    // book that share side, price and timestamp (the histories on which the recorded key-collision finding loses orders); checked only while no step was over-full
+                    if !ever_overfull {
+                        let os = env.book(a).get_orders();
+                        let mut seen = std::collections::BTreeSet::new();
+                        for o in os.iter().filter(|o| o.status == Status::Active) {
+                            if !seen.insert((matches!(o.side, Side::Bid), o.price, o.arr_time)) {
+                                fail(k, "C05.env_equal_stamps", format!("asset {}: two orders on one side at price {} were both stamped {} by the environment although no step was over-full (the later one shadows the earlier in the queue)", a, o.price, o.arr_time), fails);
+                                break;
+                            }
+                        }
                     }
                     // C11: per-step traded volume = trades stamped within the step
                     let tv: u64 = env.book(a).get_trades()[ntr[a].min(env.book(a).get_trades().len())..].iter().map(|t| t.vol as u64).sum();
